@@ -1,4 +1,5 @@
 """functools.partial branches (C19.R1, C19.R4)."""
+import ast
 from .index import Inconclusive, norm
 from .interp import Interp, Policy, show, show_lit, walk_effects, K, NONE, subterms, mentions
 from .rules_merge import site, lits_text
@@ -130,6 +131,18 @@ def rule_partial_discovery(check, rule):
     # every path runs the discovery: no own exit (raise / return) before it, whatever the bound arguments look like
     for p in paths:
         has = any(e.kind == 'call' and e.op == af.key for e, g in walk_effects(p.effects))
+        # (D59) one exit before it is legitimate: plain retrieval of the partial object itself raised ValueError -- the real function
+        # cannot take what the partial binds, there is no signature to discover
+        plain_failed = False
+        for a, pol in p.lits:
+            if a[0] == 'raises' and pol and a[2] == 'ValueError':
+                for c_ in ast.walk(fi.node):
+                    if isinstance(c_, ast.Call) and c_.lineno == a[1][0] and norm(c_.func).endswith('_signatures.signature') and c_.args \
+                            and norm(c_.args[0]) == pobj[1]:
+                        plain_failed = True
+        if not has and p.status == 'raise' and plain_failed:
+            check.holds(rule, st, 'leaves before discovery only when plain retrieval of the partial object itself fails', key='autoforwards_partial|plain-failed')
+            continue
         if not has and p.status in ('raise', 'return', 'fall'):
             last = [e for e in p.effects if e.kind in ('raise', 'return')]
             k = 'autoforwards_partial|early-exit|%s' % lits_text(p.lits)[:80]
